@@ -288,11 +288,20 @@ def expect_verb(verb, reply, tokens):
                 return "ERR parse"        # not host:port with a numeric port (fix D66)
             kw = dict(period=0.0 if d["period"] == "~" else abs(pyval(d["period"])), schedule=G.ScheduleValues[sched],
                       sha=sha, dha=dha, prefix=unhx(d["prefix"]) + "/h")
-            kw.update(dict(pydict(d["init"])))
+            init = dict(pydict(d["init"]))
             if d["source"] != "~":
                 path, fields = d["source"].split("~")
                 for f in pyfields(fields):
-                    kw[f] = SHARE_AB[f]
+                    init[f] = SHARE_AB[f]
+            # the data become keyword arguments of server.reinit after the verb's own options (fix D72b)
+            p = init.get("period", 0.0)
+            try:
+                bad_sched = init.get("schedule", G.ScheduleValues[sched]) not in G.ScheduleNames
+            except TypeError:
+                bad_sched = True
+            if "self" in init or isinstance(p, bool) or not isinstance(p, (int, float)) or bad_sched:
+                return "ERR parse"
+            kw.update(init)
             return {"name": unhx(d["name"]), "order": unhx(d["order"]) if sched != "slave" else "-",
                     "kw": sorted((k, canon_value(v) if not isinstance(v, tuple) else repr(v)) for k, v in kw.items())}
     except (ValueError, KeyError, OverflowError, TypeError) as ex:
@@ -343,7 +352,10 @@ def gen_direct(rng):
     if r.random() < 0.35:
         return [c17.gen_literal(r, r.choice(["int", "float", "bool", "quoted", "path", "point", "hex"]))]
     out = []
-    for f in r.sample(["x", "y", "z", "name", "tag"], r.randrange(1, 4)):
+    fields = r.sample(["x", "y", "z", "name", "tag"], r.randrange(1, 4))
+    if r.random() < 0.12:          # now and then a field named like an option / parameter of the receiving call (fix D72b)
+        fields[r.randrange(len(fields))] = r.choice(["self", "period", "schedule"])
+    for f in fields:
         out += [f, c17.gen_literal(r, r.choice(["int", "float", "bool", "path", "point", "special"]))]
     return out
 
